@@ -33,7 +33,7 @@ func CheckCall(sc *Scenario, v *CallView, rs RuleSet, em int) []Violation {
 		return nil // the run was abandoned while the call was in flight; the run-level verdict says why
 	}
 	if panicked {
-		add("api-panic", "", fmt.Sprintf("%s: panic escaped the call: %s", c, firstLine(pv)))
+		add("api-panic", c.PanicSite, fmt.Sprintf("%s: panic escaped the call: %s", c, firstLine(pv)))
 	}
 	for _, e := range v.Late {
 		add("event-after-return", "", fmt.Sprintf("%s: rule %d still running (event kind %d, #%d) after the call had returned (#%d)", c, e.B, e.Kind, e.Seq, v.CR))
